@@ -483,6 +483,17 @@ func (m *Matcher) match(pattern interface{}, fact interface{}, bindings Bindings
 			}
 			binding, found := bs[vv]
 			if found {
+				if s, is := binding.(string); is {
+					// A bound string is a value, not a pattern,
+					// even if it looks like a variable (say
+					// because a message contained "?x"): compare
+					// it.  (Used as a pattern, "?x" bound to
+					// "?x" would never terminate.)
+					if fs, is := fact.(string); is && fs == s {
+						return []Bindings{bs}, nil
+					}
+					return nil, nil
+				}
 				return m.match(binding, fact, bindings)
 			} else {
 				// add new binding
